@@ -287,13 +287,13 @@ PROPS = {
                  "handles are recycled / re-issued only with zero counts and counters never underflow; at the end all edges are "
                  "released, caches cleared and getCurrentNumNodes() must be 0 in every forest.  1 of 8 cases: counter-width and "
                  "growth cases -- 300 / 70000 copies of one dd_edge (8->16->32 bit), 300 parent nodes of one node, 300 cache entries on "
-                 "one node, waves of thousands of nodes, and mixed cases (one node past 300 or 70000 references, a second past 255, a third small; the first released, the handle table grown past 512 nodes and shrunk again, then the others released) -- audited at each plateau and during release in random order.  "
+                 "one node, waves of thousands of nodes, and mixed cases (one node past 300 or 70000 references, a second past 255, a third small; the first released, the handle table grown past 512 nodes and shrunk again, then the others released; with and without repeated threshold crossings caused by vector re-allocation) -- audited at each plateau and during release in random order.  "
                  "non-trivial = more than 50 incoming counts compared (or a width case); distinct = hash of the script"),
         "passes": {
             "quick": [P("main", "asan", 640)],
             "thorough": [P("main", "asan", 12000)],
         },
-        "require_counters": ["refcounts_checked", "leak_checks", "width_cases", "mixed_width_cases", "crossed_8_to_16_bit", "crossed_16_to_32_bit", "cachecount_width_cases",
+        "require_counters": ["refcounts_checked", "leak_checks", "width_cases", "mixed_width_cases", "mixed_width_second_node_passes_255_once_in_32bit_mode", "crossed_8_to_16_bit", "crossed_16_to_32_bit", "cachecount_width_cases",
                              "handles_reissued", "script_assignments", "script_self_assignments", "script_releases", "deletion:pessimistic", "deletion:optimistic", "deletion:never"],
         "assumptions": ASSUME_COMMON + ["histories contain no call that raises an error (C06 excludes error paths)"],
     },
